@@ -283,6 +283,55 @@ def c15(res, tier, deadline):
     e1.execute(res, runs, deadline_total=deadline, second_oracle=False)
 
 
+@check("C12")
+def c12(res, tier, deadline):
+    res.rule = ("registries with one method of arity k (1..4) that has (mutable) static offsets + "
+                "an ordinary unary method on every class, both registration orders: the text "
+                "written by the real generator::write_static_offsets is parsed and compared, "
+                "position by position, with the compiler result and the installed slots/strides; "
+                "the numbers are then fed back as static_offsets<> and every legal tuple is "
+                "dispatched through the static-offset branch of the real resolve (release and "
+                "debug policies); under the debug policy each number is perturbed (+1, +5/+7) and "
+                "must be rejected with static_slot_error / static_stride_error before any "
+                "definition runs. Non-trivial = arity >= 3 or a multiple-inheritance lattice.")
+    res.assumptions = COMMON_ASSUMPTIONS + [
+        "mutable static_offsets<> specialisations stand in for a program compiled with the generated constexpr header (E5 program family binds the two where built)"]
+    if tier == "quick":
+        sp = ("n=1-4,k=1,d=1;n=1-4,k=2,d=1;n=1-3,k=3,d=1;n=1-3,k=4,d=1,pres=full;"
+              "n=1-3,k=2,d=2,pres=full|direct;n=4,k=3,d=0")
+    else:
+        sp = ("n=1-5,k=1,d=2;n=1-5,k=2,d=1;n=1-4,k=3,d=1;n=1-3,k=4,d=1,pres=full|direct;"
+              "n=1-4,k=2,d=2,pres=full|direct;n=4,k=4,d=0")
+    runs = [Run("rel", "offsets", sp), Run("dbg", "offsets", sp, variant="assert")]
+    e1.execute(res, runs, deadline_total=deadline, second_oracle=False)
+
+
+@check("C13")
+def c13(res, tier, deadline):
+    res.rule = ("every poset on n classes x every assignment of parameter classes to a method set "
+                "(incl. classes no method uses, lattices whose first used slot is not 0, error "
+                "cells) x presentations: the text emitted by the real generator::"
+                "encode_dispatch_data is parsed (sizes >= 0, initialisers fit their arrays and "
+                "uint16_t), a reference decoder checks that the codes are consumed exactly and "
+                "that the in-place decoder never overwrites a code it has not read, then the real "
+                "decode_dispatch_data runs on a buffer laid out exactly like the emitted struct "
+                "between PROT_NONE guard pages (end- and start-aligned) after resetting what a "
+                "fresh process has, and every legal tuple must dispatch as after update and as the "
+                "model says. Non-trivial = MI lattice or unused classes.")
+    res.assumptions = COMMON_ASSUMPTIONS + [
+        "zero-length arrays (headroom[0]) are accepted: a GNU extension both supported compilers take",
+        "the simulated layout (union of 16-bit arrays with the pointer array, then dtbls) is the one the emitted struct has"]
+    if tier == "quick":
+        sp = ("n=1-4,set=UUB,d=1,pres=full|direct;n=1-4,set=UBT,d=1;n=1-5,set=U,d=1;"
+              "n=1-3,set=BB,d=1;n=5,set=UB,d=1;n=1-4,set=UUB,d=0")
+    else:
+        sp = ("n=1-5,set=UUB,d=1,pres=full|direct;n=1-4,set=UBT,d=1,pres=full|direct;"
+              "n=1-6,set=U,d=1;n=1-4,set=BB,d=1;n=1-3,set=UBQ,d=1;n=1-5,set=UUB,d=0")
+    runs = [Run("rel", "encode", sp), Run("rel", "encode", "n=1-4,set=UUB,d=1,pres=full|direct;n=1-3,set=UBT,d=1", variant="asan"),
+            Run("dbg", "encode", "n=1-4,set=UUB,d=1", variant="assert")]
+    e1.execute(res, runs, deadline_total=deadline, second_oracle=False)
+
+
 # --------------------------------------------------------------------------
 def replay(prop, path):
     with open(path) as fh:
